@@ -228,13 +228,13 @@ class DictItemsOnly:
     """not a dict: dictitems are re-applied through __setitem__ only"""
 
     def __init__(self):
-        self.store = []
+        self.store = {}          # order-insensitive: with sort_keys on the dumper may re-apply the items in sorted order
 
     def __setitem__(self, k, v):
-        self.store.append((k, v))
+        self.store[k] = v
 
     def __reduce__(self):
-        return (DictItemsOnly, (), None, None, iter(list(self.store)))
+        return (DictItemsOnly, (), None, None, iter(list(self.store.items())))
 
 
 class SetItemDict(dict):
